@@ -6,7 +6,7 @@
    The pre-repair BiCG and its refutation witness are in Legacy/C09Refuted.v (bicg_legacy_refuted). *)
 From Coq Require Import List Arith ZArith Floats.
 From OV Require Import Base.Panic Base.Arith Model.Vector Model.Matrix Model.Sparse Model.Iter Inst.QcInst Inst.FloatInst
-  Proofs.Iter Proofs.IterField Proofs.IterInst.
+  Proofs.Iter Proofs.IterField Proofs.IterInst Proofs.IterRows.
 Import ListNotations.
 
 (* Over any field, with any function sqrt such that sqrt 0 = 0 (and |0| = 0), any matrix given by a
@@ -28,6 +28,36 @@ Check exact_guess_ok0 : forall (A : SArith), FieldLaws (SA A) -> SqrtLaws A ->
   leb zero tol = true ->
   exists g, run mulA mulAT n n sv b x0 max tol = Ok (IOk 0, x0, g).
 Print Assumptions exact_guess_ok0.
+
+(* the same with the hypothesis LinOp discharged: EVERY square matrix of EVERY order, given as its list of rows
+   (rmul = the code's dot product of each row with the vector, rprod = the textbook product) *)
+Theorem exact_guess_ok0_rows : forall (A : SArith), FieldLaws (SA A) -> SqrtLaws A ->
+  forall n (rs : list (list (T (SA A)))) (mulAT : list (T (SA A)) -> res (list (T (SA A)))) sv b x0 max tol,
+  length rs = n -> Forall (fun r => length r = n) rs ->
+  (forall itol, sv = BiCG itol -> itol = 1 \/ itol = 2) ->
+  length b = n -> length x0 = n -> zipw sub b (rprod rs x0) = repeat zero n ->
+  leb zero tol = true ->
+  exists g, run (rmul rs) mulAT n n sv b x0 max tol = Ok (IOk 0, x0, g).
+Proof. intros A FL SL n rs mulAT sv b x0 max tol Hn Hrs Hit Hb Hx Er Htol. exact (run_exact_guess_rows FL SL n rs mulAT sv b x0 max tol Hn Hrs Hit Hb Hx Er Htol). Qed.
+Check exact_guess_ok0_rows : forall (A : SArith), FieldLaws (SA A) -> SqrtLaws A ->
+  forall n (rs : list (list (T (SA A)))) (mulAT : list (T (SA A)) -> res (list (T (SA A)))) sv b x0 max tol,
+  length rs = n -> Forall (fun r => length r = n) rs ->
+  (forall itol, sv = BiCG itol -> itol = 1 \/ itol = 2) ->
+  length b = n -> length x0 = n -> zipw sub b (rprod rs x0) = repeat zero n ->
+  leb zero tol = true ->
+  exists g, run (rmul rs) mulAT n n sv b x0 max tol = Ok (IOk 0, x0, g).
+Print Assumptions exact_guess_ok0_rows.
+
+(* non-vacuity: the identity matrix of order 2 over Qc, b = x0 = (5, -3) *)
+Example exact_guess_ok0_rows_nonvacuous :
+  Forall (fun r : list AQ => length r = 2) [[q 1 1; q 0 1]; [q 0 1; q 1 1]] /\
+  @zipw AQ sub [q 5 1; q (-3) 1] (@rprod AQ [[q 1 1; q 0 1]; [q 0 1; q 1 1]] [q 5 1; q (-3) 1]) = repeat zero 2.
+Proof.
+  split; [repeat constructor|].
+  cbn [rprod map dot_raw combine fold_left fst snd zipw repeat].
+  apply f_equal2; [apply Qcanon.Qc_is_canon; vm_compute; reflexivity|].
+  apply f_equal2; [apply Qcanon.Qc_is_canon; vm_compute; reflexivity | reflexivity].
+Qed.
 
 (* zero right-hand side with a zero guess: Ok 0, x stays the zero vector *)
 Theorem zero_rhs_zero_guess_ok0 : forall (A : SArith), FieldLaws (SA A) -> SqrtLaws A ->
